@@ -9,6 +9,7 @@ C  every aggregation node of the real function table (as Derive.tla says it must
 """
 from __future__ import annotations
 
+import os
 import json
 import random
 from pathlib import Path
@@ -196,7 +197,7 @@ def run(tier):
     for m_ in toy.run_toy(chk, quick, rnd, "C11", kinds=['grp_sum', 'grp_max'])[:5]:
         chk.violation(f"C11|toy-universe|target={m_['target']}|{m_['what'][:40]}", f"toy universe (MC_Dag configuration {m_['id']}): {m_['what']} for target {m_['target']}", m_)
     # ---- A: MC_Aggregate + dump
-    cfg = tlc.SPEC_DIR / "_gen_agg.cfg"
+    cfg = tlc.SPEC_DIR / f"_gen_agg_{os.getpid()}.cfg"
     cfg.write_text(f"CONSTANTS\n  MaxRows = {4 if quick else 5}\n  Vals = {{0, 1, 3}}\n  Ids = {{0, 2, 5}}\nSPECIFICATION Spec\nINVARIANT InvConservation\nINVARIANT InvConstant\nINVARIANT InvSelfConsistent\nINVARIANT InvMembership\nCHECK_DEADLOCK FALSE\n")
     dump = chk.work / "agg"
     try:
